@@ -1062,3 +1062,21 @@ pub fn c20_case(ctx: &mut Ctx, rng: &mut Rng) {
 /// a tokenizer that is never used: keeps the import list honest for builds without C19's CLI part
 #[allow(dead_code)]
 fn _unused(_: &Tokenizer) {}
+
+/// Deterministic witnesses for defects repaired by `fix:` commits (C10): they must stay repaired.
+pub fn c10_witnesses(ctx: &mut Ctx) {
+    for dual in [false, true] {
+        ctx.eval();
+        let conn = ConnTexts::Bigram { right: vec![], left: vec![], cost: vec![], dual };
+        match build_from_texts(b"a,0,0,0,A\n", b"DEFAULT 0 1 0\n", b"DEFAULT,0,0,100,U\n", &conn) {
+            BuildOutcome::Panic(p) => ctx.violation("builder_panicked", "C10:witness:empty-bigram-files", format!("empty bigram.right/left/cost (dual={dual}): {p}"), json!({"bigram.right": "", "bigram.left": "", "bigram.cost": "", "dual": dual})),
+            _ => ctx.bucket("witness_empty_bigram_files_no_panic"),
+        }
+    }
+    // a lexicon ending right after the cost field's comma
+    ctx.eval();
+    match build_from_texts(b"a,0,0,10,", b"DEFAULT 0 1 0\n", b"DEFAULT,0,0,100,U\n", &ConnTexts::Matrix(b"1 1\n0 0 0\n".to_vec())) {
+        BuildOutcome::Panic(p) => ctx.violation("builder_panicked", "C10:witness:lexicon-ends-after-cost-comma", p, json!({"lex.csv": "a,0,0,10,"})),
+        _ => ctx.bucket("witness_lexicon_ends_after_cost_comma_no_panic"),
+    }
+}
